@@ -38,6 +38,8 @@ class Engine:
         self.value_classes = matrix.value_classes(repo)
         self.memo: Dict[Tuple, Tuple[FrozenSet[Eff], Val]] = {}
         self.why: Dict[Tuple[Tuple, Eff], str] = {}
+        self.alias: Dict[Tuple, Tuple] = {}  # call context -> the merged context that stands for it
+        self.srcs: Dict[Tuple[Tuple, Eff], Set[Tuple]] = {}  # (context, effect) -> where it comes from (leaf | callee context effect)
         self.done_round: Dict[Tuple, int] = {}
         self.round = 0
         self.changed = False
@@ -113,7 +115,8 @@ class Engine:
                 args = [DYN if a.kinds is not None else Val(rules=a.rules, calls=a.calls) for a in args]
                 kwargs = {}
                 merged = True
-                key = (cv.key(), ("merged",) + tuple(a.key() for a in args))
+                self.alias[key] = (cv.key(), ("merged",) + tuple(a.key() for a in args))
+                key = self.alias[key]
             else:
                 self.ctx_count[fid] = n + 1
         if key in self.stable or self.done_round.get(key) == self.round:
@@ -129,6 +132,7 @@ class Engine:
                 for eff in e:
                     effs_u.add(eff)
                     self.why.setdefault((key, eff), self.why.get((ck, eff), ""))
+                    self.srcs.setdefault((key, eff), set()).add(("ctx", ck, eff))
                 ret_u = r if ret_u is None else ret_u.join(r)
             old = self.memo.get(key, (FS(), STRUCT))
             ret_u = (ret_u or STRUCT).trim(2)
@@ -201,6 +205,21 @@ class Engine:
         for opts in per_param:
             combos = [c + [o] for c in combos for o in opts]
         return combos
+
+    def origins(self, key: Tuple, eff: Eff) -> List[str]:
+        """Every leaf site (line-number free) from which ``eff`` can reach the context ``key``."""
+        seen, out, todo = set(), set(), [(key, eff)]
+        while todo:
+            node = todo.pop()
+            if node in seen:
+                continue
+            seen.add(node)
+            for src in self.srcs.get(node, ()):
+                if src[0] == "leaf":
+                    out.add(src[1])
+                else:
+                    todo.append((self.alias.get(src[1], src[1]), src[2]))
+        return sorted(out)
 
     def explain(self, key: Tuple, eff: Eff) -> str:
         return self.why.get((key, eff), "")
